@@ -55,6 +55,13 @@ Theorem C11_ledger selective cap0 ops :
 Proof. exact (C02_groups selective false cap0 ops). Qed.
 Print Assumptions C11_ledger.
 
+(* the Pending half: a future cannot answer End (the total model's children may); over every history in which no member does, the strict check
+   holds too - every Pending is returned with some member alive, so with C11_none_iff_empty: None exactly when the group is empty *)
+Theorem C11_pending_means_nonempty selective cap0 ops : let w := group_world selective false cap0 ops in
+  dropped _ w = false -> noend (strip (tr _ w)) = true -> chkN true 0 0 (strip (tr _ w)) = true.
+Proof. exact (fgroup_pending_nonempty selective cap0 ops). Qed.
+Print Assumptions C11_pending_means_nonempty.
+
 (* the capacity reported never shrinks along a history, whatever is inserted, removed, reserved, polled or woken in between
    (so together with C11_capacity: capacity >= len at every moment, and reserve's effect is never undone) *)
 Theorem C11_capacity_never_shrinks selective cap0 ops1 ops2 :
@@ -73,3 +80,8 @@ Example C11_witness :
   let w := group_world true false 0 ops in
   dropped _ w = false /\ yields (strip (tr _ w)) = [(1, 6)] /\ g_len (cs _ w) = 0.
 Proof. vm_compute. repeat split; reflexivity. Qed.
+Example C11_pending_witness :
+  let ops := [OMut 0 0 [{| fires := []; answer := APend |}]; OPollFresh] in
+  let w := group_world true false 0 ops in
+  dropped _ w = false /\ noend (strip (tr _ w)) = true /\ In EEndP (strip (tr _ w)).
+Proof. vm_compute. repeat split; auto. Qed.
